@@ -486,6 +486,11 @@ func runC16(c *Ctx) {
 		c.Check(fname(su)+"#true-only-after-zeroing", su.Pos(), nTrue > 0 && bad == 0, ifelse(nTrue > 0 && bad == 0, "every return that may be true passed the journal append, markSuicided and the balance reset", "Suicide can return true without having zeroed the balance (or journaled / marked): SELFDESTRUCT has already credited the beneficiary with that balance, so a contract that is re-funded after its first SELFDESTRUCT pays the same value out again — the sum of all balances grows"))
 	}
 
+	// ------------------------------------------------------------ F6
+	c.Rule("C16.F6", "GATE", "a frame that creates an account over an existing one can be undone: createObject journals a plain creation (whose undo forgets the address) only when no previous object — live, or marked deleted by an earlier transaction of the block — existed; otherwise a reset entry carrying the previous object. A failing frame that re-created a destructed account would otherwise drop the tombstone and the old balance, code and storage come back from the trie")
+	c.Min(2)
+	createObjectJournalKinds(c, w, w.FuncObj(statePkg, "journal", "append"))
+
 	// ------------------------------------------------------------ F4
 	c.Rule("C16.F4", "CONFINED", "Contract.Gas is increased only by gas returned from a callee frame (the call/create opcodes) or set when the contract is created")
 	c.Min(4)
